@@ -62,17 +62,29 @@ Proof.
   rewrite (list_eqb_refl' Nat.eqb) by apply Nat.eqb_refl. now rewrite fres_eqb_refl.
 Qed.
 
+Lemma holds_hist_model ml ms ht steps : holds_hist ml ms ht steps (hist_model ml ms ht steps) = [].
+Proof.
+  unfold hist_model. induction steps as [|st r IH]; cbn [map holds_hist]; [reflexivity|].
+  pose proof (holds_chain_model ml ms ht (st_srcs st) (st_sys st) (st_pd st) (st_pv st) (st_fk st) (st_fv st)) as G. cbn zeta in G.
+  destruct (comp_get (table_H ht) ml ms 0 (map mk_source (st_srcs st)) (st_sys st) (st_pd st) (st_pv st)) as [glog gres].
+  destruct (comp_find 0 (map mk_source (st_srcs st)) (st_fk st) (st_fv st)) as [flog fres].
+  cbn [fst snd] in G. now rewrite G, IH.
+Qed.
+
+Lemma cons_eqb_refl (l : list (res unit)) :
+  list_eqb (fun a b => match a, b with Ok _, Ok _ => true | Err e, Err e' => exc_eqb e e' | _, _ => false end) l l = true.
+Proof. apply list_eqb_refl'. intros [u|e]; [reflexivity | apply exc_eqb_refl]. Qed.
+
 Lemma holds_model c : valid c -> holds c (run_model c) = [].
 Proof.
-  destruct c as [ml ms a b | ml ms ht srcs sys pd pv fk fv | ml ms a b c' | ml ms ht steps]; cbn [valid run_model].
+  destruct c as [ml ms a b | ml ms ht srcs sys pd pv fk fv | ml ms a b c' | ml ms ht steps | ml ms ht fails fexc tries steps];
+    cbn [valid run_model].
   - intros [Wa Wb]. cbn [holds]. now apply holds_merge_model.
   - intros _. pose proof (holds_chain_model ml ms ht srcs sys pd pv fk fv) as G. cbn zeta in G.
     destruct (comp_get (table_H ht) ml ms 0 (map mk_source srcs) sys pd pv) as [glog gres].
     destruct (comp_find 0 (map mk_source srcs) fk fv) as [flog fres]. exact G.
   - intros E. cbn [holds]. unfold holds_assoc. now rewrite E.
-  - intros _. cbn [holds]. induction steps as [|st r IH]; cbn [map holds_hist]; [reflexivity|].
-    pose proof (holds_chain_model ml ms ht (st_srcs st) (st_sys st) (st_pd st) (st_pv st) (st_fk st) (st_fv st)) as G. cbn zeta in G.
-    destruct (comp_get (table_H ht) ml ms 0 (map mk_source (st_srcs st)) (st_sys st) (st_pd st) (st_pv st)) as [glog gres].
-    destruct (comp_find 0 (map mk_source (st_srcs st)) (st_fk st) (st_fv st)) as [flog fres].
-    cbn [fst snd] in G. now rewrite G, IH.
+  - intros _. cbn [holds]. apply holds_hist_model.
+  - intros _. cbn [holds]. rewrite cons_eqb_refl. cbn [app].
+    destruct (built (construct fexc tries fails)); [apply holds_hist_model | reflexivity].
 Qed.
